@@ -148,6 +148,11 @@ struct olt_l: public cc::lazy_list::traits { typedef item_cmp compare; };
 typedef cc::SplitListSet<cds::gc::HP, Item, sl_traits<cc::michael_list_tag, true, olt_m>> sl_ml_dyn;
 typedef cc::SplitListSet<cds::gc::HP, Item, sl_traits<cc::michael_list_tag, false, olt_m>> sl_ml_st;
 typedef cc::SplitListSet<cds::gc::DHP, Item, sl_traits<cc::lazy_list_tag, true, olt_l>> sl_ll_dyn;
+// distinct keys with the same hash value: the ordered list falls back to the key comparator
+template <class ListTag, class LT>
+struct sl_traits_coll: public sl_traits<ListTag, true, LT> { typedef item_hash<2> hash; };
+typedef cc::SplitListSet<cds::gc::HP, Item, sl_traits_coll<cc::michael_list_tag, olt_m>> sl_ml_coll;
+typedef cc::SplitListSet<cds::gc::DHP, Item, sl_traits_coll<cc::lazy_list_tag, olt_l>> sl_ll_coll;
 #else
 struct olt_i: public cc::iterable_list::traits { typedef item_less less; };
 typedef cc::SplitListSet<cds::gc::HP, Item, sl_traits<cc::iterable_list_tag, true, olt_i>> sl_il_dyn;
@@ -160,6 +165,8 @@ namespace vh {
 template <> inline sl_ml_dyn* make_set<sl_ml_dyn>( SetCfg const& ) { return new sl_ml_dyn( 8, 1 ); }
 template <> inline sl_ml_st* make_set<sl_ml_st>( SetCfg const& ) { return new sl_ml_st( 8, 1 ); }
 template <> inline sl_ll_dyn* make_set<sl_ll_dyn>( SetCfg const& ) { return new sl_ll_dyn( 8, 1 ); }
+template <> inline sl_ml_coll* make_set<sl_ml_coll>( SetCfg const& ) { return new sl_ml_coll( 8, 1 ); }
+template <> inline sl_ll_coll* make_set<sl_ll_coll>( SetCfg const& ) { return new sl_ll_coll( 8, 1 ); }
 #else
 template <> inline sl_il_dyn* make_set<sl_il_dyn>( SetCfg const& ) { return new sl_il_dyn( 8, 1 ); }
 template <> inline sl_ml_rcu* make_set<sl_ml_rcu>( SetCfg const& ) { return new sl_ml_rcu( 8, 1 ); }
@@ -263,6 +270,8 @@ int main( int argc, char** argv )
     growth<sl_ml_st, HpHolder<sl_ml_st::c_nHazardPtrCount + 2>, caps_hash>( "SplitListSet-MichaelList-static", { 1, 2, 3, 7, 5, 6 }, 2, 3 );
     family<sl_ll_dyn, DhpHolder, caps_hash>( "SplitListSet-LazyList-dynamic", { 1, 3, 2 }, 16 );
     growth<sl_ll_dyn, DhpHolder, caps_hash>( "SplitListSet-LazyList-dynamic", { 1, 2, 3, 7, 5, 6 }, 1, 2 );
+    family<sl_ml_coll, HpHolder<sl_ml_coll::c_nHazardPtrCount + 2>, caps_hash>( "SplitListSet-MichaelList-equal-hashes", { 1, 3, 2 }, 16 );
+    family<sl_ll_coll, DhpHolder, caps_hash>( "SplitListSet-LazyList-equal-hashes", { 1, 3, 2 }, 32 );
 #elif FAMILY == 3
     family<sl_il_dyn, HpHolder<sl_il_dyn::c_nHazardPtrCount + 2>, caps_hash_iter>( "SplitListSet-IterableList-dynamic", { 1, 3, 2 }, 12, 2, 3, { 1, 3, 5, 2 } );
     growth<sl_il_dyn, HpHolder<sl_il_dyn::c_nHazardPtrCount + 2>, caps_hash_repl>( "SplitListSet-IterableList-dynamic", { 1, 2, 3, 7, 5, 6 }, 2, 3 );
